@@ -40,6 +40,12 @@ for row in itertools.product(VALS, repeat=3):
         tick = ["c", "b"]
         t = T(data, now); A.SelectThese(tick, nd, neg)(t)
         check("SelectThese", t.temp["selected"], [n for n in tick if ok_price(r[n], nd, neg)], info)
+        # the same instance asked again on the next date (all three quoted at 9.0): the answer is that date's set, whatever was screened out before
+        st_ = A.SelectThese(list(tick), nd, neg); st_(T(data, now)); t = T(data, idx[3]); st_(t)
+        check("SelectThese", t.temp["selected"], tick, dict(info, second_date=True))
+        # ... and SelectHasData keeps min_count as given, 0 included (no history needed: only today's price screen is left)
+        t = T(data, now); A.SelectHasData(lookback=pd.DateOffset(days=1), min_count=0, include_no_data=nd, include_negative=neg)(t)
+        check("SelectHasData", t.temp["selected"], [n for n in names if ok_price(r[n], nd, neg)], dict(info, min_count=0))
         for prior in (None, ["c", "a"]):
             for mc in (1, 2, 3):
                 t = T(data, now, temp=({"selected": prior} if prior else {}))
